@@ -97,6 +97,39 @@ func vpC07Finish(mm bool) {
 	zzvp.Assert(zzvp.OnlyWritten("liquidity", types.OrderKeyPrefix, types.GetOrderKey(appID, pairID, id)), "no-other-order-written")
 }
 
+// C07 "settles exactly once": an order that has already been finished (completed, cancelled or expired) is not settled
+// again, whoever asks and with whatever final status (the end-of-batch sweep visits completed orders once more).
+func vpC07FinishedStaysFinished(mm bool) {
+	appID, pairID, id := zzvp.AnyUint64(), zzvp.AnyUint64(), zzvp.AnyUint64()
+	var o types.Order
+	zzvp.AnyOf(&o)
+	o.AppId, o.PairId, o.Id = appID, pairID, id
+	if mm {
+		o.Type = types.OrderTypeMM
+	} else {
+		zzvp.Assume(o.Type != types.OrderTypeMM)
+	}
+	o.Status = []types.OrderStatus{types.OrderStatusCompleted, types.OrderStatusCanceled, types.OrderStatusExpired}[zzvp.Choose(3)]
+	zzvp.Assume(zzvp.And(o.RemainingOfferCoin.Denom == o.OfferCoin.Denom, o.RemainingOfferCoin.Amount.LTE(o.OfferCoin.Amount)))
+	zzvp.Assume(o.OfferCoin.Amount.LTE(sdkmath.NewIntWithDecimal(1, 40)))
+	orderer, errO := sdk.AccAddressFromBech32(o.Orderer)
+	zzvp.Assume(errO == nil)
+	w := vpPairWorld(appID, pairID, orderer)
+	k, ctx := w.k, w.ctx
+	k.SetOrder(ctx, appID, o)
+	status := []types.OrderStatus{types.OrderStatusCanceled, types.OrderStatusExpired, types.OrderStatusCompleted}[zzvp.Choose(3)]
+	zzvp.Mark()
+	err := k.FinishOrder(ctx, o, status)
+	zzvp.Reach("second-finish-returned")
+	_ = err
+	zzvp.Assert(zzvp.BankWritesSinceMark() == 0, "a-finished-order-moves-no-coins-again")
+	post, found := k.GetOrder(ctx, appID, pairID, id)
+	zzvp.Assert(zzvp.And(found, post.Status == o.Status), "a-finished-order-keeps-its-final-status")
+}
+
+func VP_C07_FinishedOrderIsNotSettledAgain()   { vpC07FinishedStaysFinished(false) }
+func VP_C07_FinishedMMOrderIsNotSettledAgain() { vpC07FinishedStaysFinished(true) }
+
 func VP_C07_FinishOrder()   { vpC07Finish(false) }
 func VP_C07_FinishMMOrder() { vpC07Finish(true) }
 
